@@ -35,6 +35,8 @@ LEVELS = {
         {'name': 'L1-N3-M2-K1', 'N': 3, 'M': 2, 'K': 1, 'variants': 'all', 'budget_s': 90},
         {'name': 'L1b-N3-M3-K1-prio', 'N': 3, 'M': 3, 'K': 1, 'nevents': 1, 'variants': 'few', 'prio': 1,
          'kinds': 'bco', 'targets': 'self_none', 'budget_s': 90},
+        {'name': 'L1c-N3-M3-K1-free', 'N': 3, 'M': 3, 'K': 1, 'nevents': 1, 'variants': 'few', 'kinds': 'bco',
+         'evented': 1, 'budget_s': 90},
         {'name': 'L2-N4-M1-K2', 'N': 4, 'M': 1, 'K': 2, 'variants': 'few', 'budget_s': 120},
         {'name': 'L3-TE-M1-K2', 'templates': ['TE'], 'M': 1, 'K': 2, 'nevents': 1, 'variants': 'few', 'budget_s': 60},
     ],
@@ -73,7 +75,8 @@ def shards(level):
                        cg.split_shards([dict(TEMPLATES[name])], level['M'], nevents=level.get('nevents', 2)))
         return out
     kinds = [B, C, O] if level.get('kinds') == 'bco' else ALL
-    return cg.split_shards(cg.skeletons(level['N'], kinds), level['M'], nevents=level.get('nevents', 2))
+    return cg.split_shards(cg.skeletons(level['N'], kinds), level['M'], nevents=level.get('nevents', 2),
+                           evented_only=bool(level.get('evented')))
 
 
 def expand(job, level):
@@ -82,7 +85,8 @@ def expand(job, level):
         return
     yield from cg.charts(job['skel'], level['M'], nevents=level.get('nevents', 2),
                          targets=level.get('targets', 'free'),
-                         fix=job.get('fix'), hist_target=bool(level.get('hist_target')))
+                         fix=job.get('fix'), hist_target=bool(level.get('hist_target')),
+                         evented_only=bool(level.get('evented')))
 
 
 def canary_job():
